@@ -181,6 +181,9 @@ theorem ioArm_frame (s : Sys) (a : Arm) (hq : Quiet s) : SameBuf s.buf (s.ioArm 
         have hf := handleCmd_frame { s with queue := rest } .reset
         exact ⟨hf.1, by rw [hf.2.2]; exact halive, by rw [hf.2.1]; exact hrest⟩
 
+theorem bounce_frame (s : Sys) (a : Arm) (hq : Quiet s) : (s.bounce a).buf = s.buf ∧ Quiet (s.bounce a) := by
+  cases a <;> exact ⟨rfl, hq⟩
+
 theorem ioRunN_frame (n : Nat) (s : Sys) (prio : List Arm) (hq : Quiet s) :
     SameBuf s.buf (ioRunN n s prio).buf ∧ Quiet (ioRunN n s prio) := by
   induction n generalizing s with
@@ -190,9 +193,16 @@ theorem ioRunN_frame (n : Nat) (s : Sys) (prio : List Arm) (hq : Quiet s) :
     cases s.pickArm prio with
     | none => exact ⟨SameBuf.refl _, hq⟩
     | some a =>
-      have h1 := ioArm_frame s a hq
-      have h2 := ih (s.ioArm a) h1.2
-      exact ⟨h1.1.trans h2.1, h2.2⟩
+      simp only
+      split
+      · have hb := bounce_frame s a hq
+        have h1 := ioArm_frame (s.bounce a) .cmd hb.2
+        have h2 := ih ((s.bounce a).ioArm .cmd) h1.2
+        rw [hb.1] at h1
+        exact ⟨h1.1.trans h2.1, h2.2⟩
+      · have h1 := ioArm_frame s a hq
+        have h2 := ih (s.ioArm a) h1.2
+        exact ⟨h1.1.trans h2.1, h2.2⟩
 
 theorem ioRun_frame (s : Sys) (prio : List Arm) (hq : Quiet s) :
     SameBuf s.buf (s.ioRun prio).buf ∧ Quiet (s.ioRun prio) := ioRunN_frame 8 s prio hq
